@@ -239,6 +239,12 @@ impl Parameters {
                 // When merging peptides from different Fastas,
                 // decoys in one fasta might be targets in another
                 keep.decoy &= remove.decoy;
+                // which of the duplicates is kept is up to the (unstable) sort: make the
+                // remaining per-occurrence attributes canonical so that the reported
+                // `semi_enzymatic` / `missed_cleavages` columns do not vary between runs
+                keep.semi_enzymatic &= remove.semi_enzymatic;
+                keep.missed_cleavages = keep.missed_cleavages.min(remove.missed_cleavages);
+                keep.position = keep.position.min(remove.position);
                 true
             } else {
                 false
